@@ -430,6 +430,27 @@ def coq_coverage(rep, cr, checker_cmd, trusted):
         print("COQ %s build log tail: %s" % (rep.prop, cr.build_log[-1200:].replace("\n", " | ")), flush=True)
 
 
+def tie_phase(rep, group):
+    """regenerate coq/Gen/<group>/*.v from /repo/src (checks/gen_ties.py), build it and read Print Assumptions of its tie
+    theorems.  Returns (ok, description); the numbers go into the evidence"""
+    from . import gen_ties
+    rel = gen_ties.GROUPS[group]()
+    d = os.path.dirname(rel)
+    cr = coq_phase([d], rel)
+    src = open(os.path.join(COQ, rel)).read()
+    failed = "TRANSLATION FAILED" in src
+    rep.coverage.setdefault("regenerated_ties", {})[rel] = {
+        "theorems": [n for n, _ in cr.theorems], "discharged": cr.discharged, "translation_failed": failed,
+        "print_assumptions": {n: cr.assumptions.get(n, "not checked") for n, _ in cr.theorems}}
+    print("TIE %s: %s theorems=%d discharged=%d translation_failed=%s" % (rep.prop, rel, cr.obligations, cr.discharged, failed), flush=True)
+    if cr.ok and not failed:
+        return True, ""
+    m = re.search(r"TRANSLATION FAILED: ([^*]*)", src)
+    what = "the definitions regenerated from /repo/src (%s) no longer translate / are no longer proved equal to the model: %s %s" % (
+        rel, (m.group(1).strip() if m else ""), (cr.build_log[-600:].replace("\n", " | ") if not cr.ok else ""))
+    return False, what
+
+
 def rng(seed, prop):
     return random.Random("%s-%s" % (prop, seed))
 
@@ -444,7 +465,7 @@ def case_hash(c):
 
 def standard_run(prop, tier, seed, replay, *, dirs, props_file, trusted, gen_cases, vh_sub,
                  imports, model_expr, canon_model, canon_impl, oracle, nontrivial, rule,
-                 level="proof", extra=None, per_file=400):
+                 level="proof", extra=None, per_file=400, ties=()):
     """1-2 prove (coq_phase), 3 build harness, 4 correspond (model by vm_compute vs implementation),
     5 evaluate the property oracle on the implementation's results; report.
     oracle(case, impl_result) -> [(key, what)] ; nontrivial(case, impl_result) -> bool."""
@@ -453,6 +474,11 @@ def standard_run(prop, tier, seed, replay, *, dirs, props_file, trusted, gen_cas
     cr = coq_phase(dirs, props_file)
     coq_coverage(rep, cr, "cd coq && make %s && coqc -Q . V %s  (+ hygiene grep, Print Assumptions allow-list)" % (props_file + "o", props_file), trusted)
     proof_ok = cr.ok
+    tie_msgs = []
+    for g in ties:
+        okt, whatt = tie_phase(rep, g)
+        if not okt:
+            tie_msgs.append(whatt)
     if not proof_ok:
         log("%s: proof phase failed: built=%s hygiene=%s bad_assumptions=%s failed=%s\n%s" % (
             prop, cr.built, cr.hygiene, cr.bad_assumptions, cr.failed_files, cr.build_log[-1500:]))
@@ -500,9 +526,9 @@ def standard_run(prop, tier, seed, replay, *, dirs, props_file, trusted, gen_cas
             break
     if extra is not None:
         found += extra(rep, tier, seed) or 0
-    tie_broken = (not proof_ok) or model is None or disagreements
+    tie_broken = (not proof_ok) or model is None or disagreements or tie_msgs
     if tie_broken and found == 0:
-        what = []
+        what = list(tie_msgs)
         if not proof_ok:
             what.append("theorems of coq/%s no longer check (failed files: %s; hygiene: %s; assumptions: %s)" % (
                 props_file, cr.failed_files, cr.hygiene, cr.bad_assumptions))
